@@ -125,11 +125,11 @@ floor ⇒ 161 s − 1 ns). -/
 example :
     NoCollision (retryJob.indexes { hash := "d" }) ∧
     (newCalls (retrySys (sec 160)) (syncCreateTasks (retrySys (sec 160)) ⟨"job", "u", retryJob, true, 1⟩ retryJob
-      (tasks0 (retrySys (sec 160)) retryJob)).1).map brief = [("create", "pods", "job-a-1", "ok")] ∧
+      (tasks0 (retrySys (sec 160)) ⟨"job", "u", retryJob, true, 1⟩ retryJob)).1).map brief = [("create", "pods", "job-a-1", "ok")] ∧
     newCalls (retrySys (sec 160 - 1)) (syncCreateTasks (retrySys (sec 160 - 1)) ⟨"job", "u", retryJob, true, 1⟩ retryJob
-      (tasks0 (retrySys (sec 160 - 1)) retryJob)).1 = [] ∧
+      (tasks0 (retrySys (sec 160 - 1)) ⟨"job", "u", retryJob, true, 1⟩ retryJob)).1 = [] ∧
     (syncCreateTasks (retrySys (sec 160 - 1)) ⟨"job", "u", retryJob, true, 1⟩ retryJob
-      (tasks0 (retrySys (sec 160 - 1)) retryJob)).1.q.delayed = [("ns/job", sec 161 - 1)] := by
+      (tasks0 (retrySys (sec 160 - 1)) ⟨"job", "u", retryJob, true, 1⟩ retryJob)).1.q.delayed = [("ns/job", sec 161 - 1)] := by
   decide
 
 /-- `no_create_when_stopped` (creation step): when `canCreateTask` is false (kill timestamp
@@ -184,7 +184,7 @@ theorem sync_create_only_missing (s : Sys) (jo : JobObj) :
     ∀ c ∈ newCalls s (sync s jo).1, c.verb = "create" →
       isStarted jo.job = true ∧ isDeleted jo.job = false ∧
       jo.job.killTimestamp = none ∧ jo.job.admissionError = false ∧
-      (refreshedSummary s jo.job (tasks0 s jo.job)).complete = false ∧ c.res = "pods" ∧
+      (refreshedSummary s jo.job (tasks0 s jo jo.job)).complete = false ∧ c.res = "pods" ∧
       ∃ reqs, computeMissingIndexesForCreation s.d jo.job (jo.job.indexes s.d) = some reqs ∧
         ∃ r ∈ reqs, c.name = taskName jo.name r.index.hash r.retryIndex ∧ reqDueNow s.clock r := by
   intro c hc hv
